@@ -78,7 +78,15 @@ int main(int argc, char **argv)
 		LHAInputStream *st = lha_input_stream_new(&cbt, NULL);
 		LHAReader *r = lha_reader_new(st);
 		LHAFileHeader *h0 = lha_reader_next_file(r);
-		if (!h0) { fprintf(stderr, "dummy header not accepted\n"); return 2; }
+		if (!h0) {
+			/* the well-formed header that only serves to get past the signature scan was itself not returned: that is an
+			 * observation about the implementation (reported as a case of its own), not a failure of the harness */
+			printf("{\"e\":\"Hdr\",\"in\":[");
+			for (size_t i = 0; i < dl; i++) printf("%s%u", i ? "," : "", (unsigned char) dummy[i]);
+			printf("],\"ok\":false,\"dummy\":true}\n");
+			lha_reader_free(r); lha_input_stream_free(st);
+			continue;
+		}
 		LHAFileHeader *h = lha_reader_next_file(r);
 		printf("{\"e\":\"Hdr\",\"in\":[");
 		for (size_t i = 0; i < cl; i++) printf("%s%u", i ? "," : "", cs[i]);
